@@ -30,6 +30,20 @@ fn check(x: &[u8], y: &[u8], ms: i32, mm: i32, go: i32, ge: i32, k: usize, w: us
             let got = rescore(&b, &x, &y, msl, mml, gol, gel, clips).map_err(|e| format!("mode {}: {}", mode, e))?;
             if got != b.score as i64 { return Err(format!("mode {}: path {:?} re-scores to {} but the reported score is {}", mode, b.operations, got, b.score)); }
         }
+        // the mode wrappers (incl. the prehashed variant) override whatever clip penalties the aligner carries
+        {
+            use bio::alignment::sparse::hash_kmers;
+            let carried = || Scoring::new(go, ge, score).xclip_prefix(-1).xclip_suffix(-2).yclip_prefix(-3).yclip_suffix(-4);
+            for mode in 0..4u8 {
+                let mut c = banded::Aligner::with_scoring(carried(), k, w);
+                let mut p = banded::Aligner::new(go, ge, score, k, w);
+                let h = hash_kmers(&y, k);
+                let (a, b) = match mode { 0 => (c.global(&x, &y), p.global(&x, &y)), 1 => (c.semiglobal(&x, &y), p.semiglobal(&x, &y)), 2 => (c.local(&x, &y), p.local(&x, &y)), _ => (c.semiglobal_with_prehash(&x, &y, &h), p.semiglobal(&x, &y)) };
+                if a.score != b.score || a.operations != b.operations || (a.xstart, a.xend, a.ystart, a.yend) != (b.xstart, b.xend, b.ystart, b.yend) {
+                    return Err(format!("banded mode {} on an aligner carrying clip penalties (-1,-2,-3,-4) gives score {} / {:?}, on a default aligner {} / {:?}", mode, a.score, a.operations, b.score, b.operations));
+                }
+            }
+        }
         Ok(())
     }).and_then(|r| r)
 }
